@@ -53,6 +53,16 @@ fn parse_plan(v: &Value) -> Plan {
     if let Some(b) = v.get("bernoulli").and_then(Value::as_array) {
         p.bernoulli = Some((b[0].as_u64().unwrap_or(0), b[1].as_u64().unwrap_or(1)));
     }
+    if let Some(rs) = v.get("rules").and_then(Value::as_array) {
+        for t in rs {
+            p.rules.push((
+                t[0].as_str().unwrap_or("").to_string(),
+                t[1].as_str().unwrap_or("").to_string(),
+                t[2].as_u64().unwrap_or(0) as usize,
+                t[3].as_str().unwrap_or("Other").to_string(),
+            ));
+        }
+    }
     if let Some(vs) = v.get("only_verbs").and_then(Value::as_array) {
         p.only_verbs = vs.iter().filter_map(|x| x.as_str().map(String::from)).collect();
     }
